@@ -88,9 +88,30 @@ def pool_grid_cases():
     return out
 
 
+def _no_disconnect_after_gen(ops):
+    out, resumed = [], False
+    for o in ops:
+        if isinstance(o, str):
+            if o in ('gen_next', 'gen_write'):
+                resumed = True
+            if o == 'disconnect' and resumed:
+                continue
+            out.append(o)
+        else:
+            out.append([o[0], _no_disconnect_after_gen(o[1])])
+    return out
+
+
 def normalise(case):
     """precondition of the open_dirty state: the child first discards the inherited unflushed cache
-    (duplicating pending objects is the memory copy of fork, not a connection matter)"""
+    (duplicating pending objects is the memory copy of fork, not a connection matter).
+    Precondition of the generator state: a process does not disconnect() after it has resumed the generator, because the
+    suspended generator session then holds that process's OWN pooled connection and disconnect() closes it -- with or
+    without fork (pony's documented single connection per thread), so it says nothing about C36."""
+    if case['kind'] == 'sqlite' and case['parent_state'] == H.GEN_STATE:
+        child = _no_disconnect_after_gen(case['child'])
+        if child != case['child']:
+            case = dict(case, child=child)
     if case['kind'] == 'sqlite' and case['parent_state'] == 'open_dirty' and (not case['child'] or case['child'][0] != 'rollback'):
         case = dict(case, child=['rollback'] + list(case['child']))
     return case
@@ -202,7 +223,7 @@ def run(ctx):
         'order': st.sampled_from(['child_first', 'parent_first']),
         'child': st.lists(gchild_op, min_size=1, max_size=5),
         'parent_after': st.lists(st.sampled_from(['gen_next', 'gen_write', 'read', 'write']), max_size=4),
-    })
+    }).map(normalise)
     sqlite_case = st.one_of(plain_case, plain_case, plain_case, plain_case, gen_case)
 
     def t_sqlite(case):
